@@ -217,6 +217,8 @@ type RulesOpts struct {
 	Between  []int
 	// InChain: a comment line (a commented-out SecRule) in front of the chained SecRule with this running number
 	InChain []int
+	// IDNotFirst: rule i writes `"phase:2,id:NNNNNN,\` (the id action is on the line after the SecRule line, but not its first action)
+	IDNotFirst []int
 }
 
 func renderRuleFile(rf *RuleFile, o RulesOpts, header string, commentFor func(i int) string) {
@@ -265,7 +267,9 @@ func renderRuleFile(rf *RuleFile, o RulesOpts, header string, commentFor func(i 
 			}
 			sb.WriteString(nl)
 			secNo++
-			if k == 0 {
+			if k == 0 && i < len(o.IDNotFirst) && o.IDNotFirst[i] == 1 {
+				sb.WriteString(ind + "    \"phase:2,id:" + r.ID + ",\\" + nl)
+			} else if k == 0 {
 				sb.WriteString(ind + "    \"id:" + r.ID + ",\\" + nl)
 				sb.WriteString(ind + "    phase:2,\\" + nl)
 				sb.WriteString(ind + "    block,\\" + nl)
@@ -459,10 +463,15 @@ func drawProgram(t *rapid.T, o ProgOpts, label string) *ProgInfo {
 		case kind == 15 && o.Cmdline && depth < 3:
 			add(ind + "##!> cmdline " + pick(t, []string{"unix", "windows"}, label+"-ct"))
 			k := drawInt(t, 1, 3, label+"-cw")
+			var cw []string
 			for j := 0; j < k; j++ {
 				w := drawWord(t, 2, 5, label+"-cword")
 				w += pick(t, []string{"", "", "@", "~"}, label+"-cm")
 				add(ind + "  " + w)
+				cw = append(cw, w)
+			}
+			if chance(t, 30, label+"-cdup") {
+				add(ind + "  " + cw[0]) // the same command listed twice
 			}
 			add(ind + "##!<")
 			info.UsedBlocks++
